@@ -143,6 +143,9 @@ func RecordRaw(test string, b []byte, r Result) {
 			st.fps[fp] = struct{}{}
 			n := int64(len(st.fps))
 			if len(b) < 6000 {
+				if !json.Valid(b) { // raw (non-JSON) case encodings are stored as a JSON string
+					b, _ = json.Marshal(string(b))
+				}
 				if len(st.Samples) < 3 {
 					st.Samples = append(st.Samples, append(json.RawMessage(nil), b...))
 				} else if n&(n-1) == 0 { // keep the latest power-of-two-th distinct case as a "late" sample
